@@ -39,7 +39,6 @@ def table : List ModelEntries :=
   , Entries.asyncpass
   , Entries.mutexv1
   , Entries.mutexv2
-  , Entries.mutexv2fix
   , Entries.alist
   , Entries.eventloop
   , Entries.atomicqueue
